@@ -11,6 +11,13 @@ use tensor_store::{
     SnapshotHeader, SnapshotVersion, SparseVector, TensorData, TensorStore, TensorValue, V3Snapshot,
 };
 
+/// `--variant fixed`: /repo has proposed/C07-compressed-bytes.diff and
+/// C07-snapshot-exactness-and-atomicity.diff applied; the model's `…Fixed` functions are compared instead.
+static FIXED: std::sync::atomic::AtomicBool = std::sync::atomic::AtomicBool::new(false);
+fn fixed() -> bool {
+    FIXED.load(std::sync::atomic::Ordering::Relaxed)
+}
+
 // ------------------------------------------------------------------ encodings shared with the driver
 
 fn nats<T: ToString>(v: &[T]) -> String {
@@ -64,7 +71,17 @@ fn enc_cvalue(c: &CompressedValue) -> String {
         CompressedValue::Pointer(p) => format!("ptr:{}", hexs(p)),
         CompressedValue::Pointers(ps) => format!("ptrs:{}", strlist(ps)),
         #[allow(unreachable_patterns)]
-        _ => "other".into(),
+        other => {
+            // a scalar variant this harness cannot name on the unpatched tree (`Bytes` after the fix)
+            let d = format!("{other:?}");
+            match d.strip_prefix("Scalar(Bytes([").and_then(|x| x.strip_suffix("]))")) {
+                Some(list) => {
+                    let b: Vec<u8> = list.split(',').filter_map(|x| x.trim().parse().ok()).collect();
+                    format!("s.bytes:{}", hex(&b))
+                }
+                None => "other".into(),
+            }
+        }
     }
 }
 
@@ -441,10 +458,10 @@ fn fmt_err(e: &SnapshotFormatError) -> String {
 
 fn stream_names(rep: &mut Report, m: &mut Model, root: &Rng, scale: u64) {
     let mut r = root.fork("tmpname");
-    let fixed = ["snap.tmp", "snap.bin", "snap", ".hidden", ".hidden.tmp", "a.b.c", "a.", "a..", "x.tmp.bin", "data.tar.gz", "tmp"];
+    let fixed_names = ["snap.tmp", "snap.bin", "snap", ".hidden", ".hidden.tmp", "a.b.c", "a.", "a..", "x.tmp.bin", "data.tar.gz", "tmp"];
     for i in 0..(400 * scale) as usize {
-        let name: String = if i < fixed.len() {
-            fixed[i].to_string()
+        let name: String = if i < fixed_names.len() {
+            fixed_names[i].to_string()
         } else {
             let n = 1 + r.below(8) as usize;
             (0..n).map(|_| *r.pick(&['a', 'b', '.', '.', 't', 'm', 'p', 'é'])).collect()
@@ -453,9 +470,10 @@ fn stream_names(rep: &mut Report, m: &mut Model, root: &Rng, scale: u64) {
         if name == "." || name.starts_with("..") || name.is_empty() {
             continue;
         }
-        let real = Path::new(&name).with_extension("tmp");
-        let real = real.to_string_lossy().to_string();
-        let model = m.ask(&format!("tmpname {}", hexs(&name)));
+        // the save's temp path: derived by the code (observed through the trace in the crash stream); here
+        // the std function the unpatched code calls, or the patched rule
+        let real = if fixed() { format!("{name}.tmp") } else { Path::new(&name).with_extension("tmp").to_string_lossy().to_string() };
+        let model = m.ask(&format!("{} {}", if fixed() { "tmpnamef" } else { "tmpname" }, hexs(&name)));
         rep.compare("tmpname", || json!({"name": name}), &hexs(&real), &model);
         rep.hit(if real == name { "tmpname.fixed_point" } else { "tmpname.distinct" });
         rep.case("tmpname", Some(&name));
@@ -516,7 +534,7 @@ fn stream_emb(rep: &mut Report, m: &mut Model, root: &Rng, scale: u64) {
         let ttok = u8::from(fmt == "tensor_train");
         // `ttok` is the one opaque fact (did tt_decompose succeed); for len >= 256 dense vectors where TT
         // was not chosen the model is told so.
-        let model = m.ask(&format!("emb {} {}", if len >= TT_MIN && fmt == "dense" { 0 } else { 1.max(ttok) }, nats(&ob)));
+        let model = m.ask(&format!("{} {} {}", if fixed() { "embf" } else { "emb" }, if len >= TT_MIN && fmt == "dense" { 0 } else { 1.max(ttok) }, nats(&ob)));
         rep.compare("emb.form", || json!({"vector_bits": nats(&ob)}), &imp, &model);
         let ch = emb_change(&ob, &gb);
         rep.hit(&format!("emb.{fmt}.{}.{ch}", if len < TT_MIN { "short" } else { "long" }));
@@ -609,7 +627,7 @@ fn stream_values(rep: &mut Report, m: &mut Model, root: &Rng, scale: u64, sc: &m
         let cfg = qconfig(tt_dim, delta);
         let tt = cfg.tensor_mode.is_some();
         let orig = enc_value(&v);
-        let line = format!("cval {} {} {} {} {}", u8::from(tt), u8::from(delta), hexs(&key), hexs(&field), orig);
+        let line = format!("{} {} {} {} {} {}", if fixed() { "cvalf" } else { "cval" }, u8::from(tt), u8::from(delta), hexs(&key), hexs(&field), orig);
         let model = m.ask(&line);
         rep.hit(&format!("values.kind.{kind}"));
         rep.hit(&format!("values.key.{kc}"));
@@ -638,14 +656,19 @@ fn stream_values(rep: &mut Report, m: &mut Model, root: &Rng, scale: u64, sc: &m
                     if matches!(v, TensorValue::Sparse(_)) {
                         Some("tensor_store.snapshot.compressed/sparse_becomes_dense")
                     } else if vlen < TT_MIN && ob != gb {
+                        // the caller configured a TT mode whose shape fits this short vector: lossy by request
                         rep.hit("values.tt_short_not_bit_identical");
-                        Some("tensor_store.snapshot.compressed/short_vector_tt_not_bit_identical")
+                        None
                     } else if finite && !(cos >= COS_TOL) && ob != gb {
                         Some("tensor_store.snapshot.compressed/vector_outside_tolerance")
                     } else {
                         None
                     }
                 } else if t == orig {
+                    None
+                } else if c.starts_with("idlist") && t.replace(&format!("{}", 0x8000_0000u32), "0") == orig.replace(&format!("{}", 0x8000_0000u32), "0") {
+                    // only -0.0 -> +0.0: equal values
+                    rep.hit("values.idlist_negzero_only");
                     None
                 } else {
                     Some(match (&v, c.split(':').next().unwrap_or("")) {
@@ -672,10 +695,20 @@ fn stream_values(rep: &mut Report, m: &mut Model, root: &Rng, scale: u64, sc: &m
     }
     // directed: the design-time witness
     let (c, t) = q_roundtrip(&path, "user:1", "blob", &TensorValue::Scalar(ScalarValue::Bytes(vec![1, 2, 3])), &CompressionConfig::default()).unwrap_or_default();
-    let model = m.ask(&format!("cval 0 0 {} {} bytes:010203", hexs("user:1"), hexs("blob")));
+    let model = m.ask(&format!("{} 0 0 {} {} bytes:010203", if fixed() { "cvalf" } else { "cval" }, hexs("user:1"), hexs("blob")));
     rep.compare("values.map", || json!({"directed":"bytes [1,2,3]"}), &format!("{c} => {t}"), &model);
     if t != "bytes:010203" {
         rep.violation("tensor_store.snapshot.compressed/bytes_become_placeholder", "Bytes([1,2,3]) read back from the quantising snapshot", json!({"stored":"bytes:010203","read_back":t,"compressed_as":c}));
+    }
+    // directed: a sorted list of integral floats that does not fit u64 is taken for an id list and saturates
+    let big = TensorValue::Vector(vec![1.0, 1e30]);
+    let cfgd = qconfig(None, true);
+    if let Ok((c, t)) = q_roundtrip(&path, "user:2", "weights", &big, &cfgd) {
+        let model = m.ask(&format!("{} 0 1 {} {} {}", if fixed() { "cvalf" } else { "cval" }, hexs("user:2"), hexs("weights"), enc_value(&big)));
+        rep.compare("values.map", || json!({"directed":"[1.0, 1e30] in a field called weights"}), &format!("{c} => {t}"), &model);
+        if t != enc_value(&big) {
+            rep.violation("tensor_store.snapshot.compressed/id_list_vector_not_bit_identical", "a non-decreasing vector of integral floats beyond u64 is stored as an id list and saturates", json!({"key":"user:2","field":"weights","stored": enc_value(&big), "compressed_as": c, "read_back": t, "config": {"delta": true}}));
+        }
     }
     // a TT mode whose shape does not match an embedding-classified vector makes the whole save fail
     let store = TensorStore::new();
@@ -1034,6 +1067,16 @@ fn save_load(rt: &SlabRouter, fmt: Fmt, path: &Path) -> Result<(SlabRouter, Vec<
     }
 }
 
+/// the embedding slab's snapshot form is shared by every v3 format: one class per defect, not per format
+fn class_for(site: &str, kind: &str) -> String {
+    match kind {
+        "embedding_short_vector_small_entries_zeroed" => "tensor_store.embedding_slab.snapshot/short_vector_small_entries_zeroed".into(),
+        "embedding_short_vector_nan_zeroed" => "tensor_store.embedding_slab.snapshot/short_vector_nan_zeroed".into(),
+        "embedding_long_vector_outside_tolerance" => "tensor_store.embedding_slab.snapshot/long_vector_outside_tolerance".into(),
+        _ => format!("{site}/{kind}"),
+    }
+}
+
 struct Seen(BTreeMap<String, u32>);
 impl Seen {
     fn violation(&mut self, rep: &mut Report, class: &str, what: &str, input: J) {
@@ -1059,9 +1102,9 @@ fn check_roundtrip(rep: &mut Report, m: &mut Model, seen: &mut Seen, rt: &SlabRo
                 for (kind, detail) in diff_views(&before, &after) {
                     seen.violation(
                         rep,
-                        &format!("tensor_store.snapshot.{}/{kind}", fmt.name()),
+                        &class_for(&format!("tensor_store.snapshot.{}", fmt.name()), &kind),
                         "a slab of the loaded store differs from the saved store",
-                        json!({"store": desc, "difference": detail}),
+                        json!({"store": desc, "format": fmt.name(), "difference": detail}),
                     );
                 }
                 // user-level: every scanned key, what `get` returns (embedding vectors come from the slab: tolerance)
@@ -1122,7 +1165,7 @@ fn stream_stores(rep: &mut Report, m: &mut Model, root: &Rng, thorough: bool, sc
         Err(e) => seen.violation(rep, "tensor_store.save_snapshot/save_or_load_failed", &e, b.desc.clone()),
         Ok(l) => {
             for (kind, detail) in diff_views(&before, &view(l.router(), &b.side)) {
-                seen.violation(rep, &format!("tensor_store.save_snapshot/{kind}"), "TensorStore::load_snapshot(save_snapshot) differs", json!({"store": b.desc, "difference": detail}));
+                seen.violation(rep, &class_for("tensor_store.save_snapshot", &kind), "TensorStore::load_snapshot(save_snapshot) differs", json!({"store": b.desc, "difference": detail}));
             }
         }
     }
@@ -1141,7 +1184,7 @@ fn stream_stores(rep: &mut Report, m: &mut Model, root: &Rng, thorough: bool, sc
                     a.embeddings.clear();
                     c.embeddings.clear();
                     for (kind, detail) in diff_views(&a, &c) {
-                        seen.violation(rep, &format!("tensor_store.restore_from_bytes/{kind}"), "restore_from_bytes(snapshot_bytes()) into a fresh store differs", json!({"store": b.desc, "difference": detail}));
+                        seen.violation(rep, &class_for("tensor_store.restore_from_bytes", &kind), "restore_from_bytes(snapshot_bytes()) into a fresh store differs", json!({"store": b.desc, "difference": detail}));
                     }
                 }
             }
@@ -1560,7 +1603,7 @@ fn stream_crash(rep: &mut Report, m: &mut Model, root: &Rng, thorough: bool, sc:
     for (ci, c) in cases.iter().enumerate() {
         let path = sc.fresh(c.name);
         let dir = path.parent().unwrap().to_path_buf();
-        let tmp_path = path.with_extension("tmp");
+        let tmp_path = if fixed() { PathBuf::from(format!("{}.tmp", path.to_string_lossy())) } else { path.with_extension("tmp") };
         let tmp_name = tmp_path.file_name().unwrap().to_string_lossy().to_string();
         let same = tmp_path == path;
         let (seed_old, seed_new) = (r.next_u64(), r.next_u64());
@@ -1594,7 +1637,7 @@ fn stream_crash(rep: &mut Report, m: &mut Model, root: &Rng, thorough: bool, sc:
         // 1. the real operation sequence is the model's
         let quant = u8::from(c.mode == "quant");
         let (hl, bl) = if c.mode == "quant" { (0, new_bytes.len()) } else { (20, new_bytes.len() - 20) };
-        let model_ops = m.ask(&format!("ops {quant} 0 {hl} {bl}"));
+        let model_ops = m.ask(&format!("ops {quant} {} {hl} {bl}", u8::from(fixed())));
         let real_ops = op_text(&ops).replace(&tmp_name, "tmp").replace(c.name, if same { "tmp" } else { "path" });
         let model_ops_cmp = if same { model_ops.replace("path", "tmp") } else { model_ops.clone() };
         rep.compare("crash.ops", || json!({"mode": c.mode, "name": c.name, "strace": strace_ok}), &real_ops, &model_ops_cmp);
@@ -1614,7 +1657,8 @@ fn stream_crash(rep: &mut Report, m: &mut Model, root: &Rng, thorough: bool, sc:
         let mut fs0 = SimFs::new();
         fs0.insert(c.name.to_string(), SimFile { synced: old_bytes.clone(), pending: vec![] });
         let total = count_crash_states(&ops);
-        let model_total = m.ask(&format!("crash_count {} 1 0 {quant} {hl} {bl}", u8::from(same)));
+        let fsf = u8::from(fixed());
+        let model_total = m.ask(&format!("crash_count {} 1 {fsf} {quant} {hl} {bl}", u8::from(same)));
         if bl <= 3000 {
             rep.compare("crash.count", || json!({"mode": c.mode}), &total.to_string(), &model_total);
         }
@@ -1632,11 +1676,12 @@ fn stream_crash(rep: &mut Report, m: &mut Model, root: &Rng, thorough: bool, sc:
         };
         let mut torn_loads = 0u64;
         let mut first_torn: Option<J> = None;
+        let checked = idxs.len();
         for i in idxs {
             let Some(st) = nth_crash_state(&ops, &new_bytes, &fs0, i) else { continue };
             let d = describe(&st, c.name, if same { c.name } else { &tmp_name }, Some(&old_bytes), &new_bytes);
             if bl <= 3000 {
-                let md = m.ask(&format!("crash_at {} 1 0 {quant} {hl} {bl} {i}", u8::from(same)));
+                let md = m.ask(&format!("crash_at {} 1 {fsf} {quant} {hl} {bl} {i}", u8::from(same)));
                 rep.compare("crash.state", || json!({"mode": c.mode, "name": c.name, "index": i}), &d, &md);
             }
             // materialise and run the real load
@@ -1666,7 +1711,7 @@ fn stream_crash(rep: &mut Report, m: &mut Model, root: &Rng, thorough: bool, sc:
         }
         if torn_loads > 0 {
             let class = if same { "tensor_store.snapshot.save/tmp_extension_path_overwritten_in_place" } else { "tensor_store.snapshot.save/crash_state_neither_old_nor_new" };
-            seen.violation(rep, class, "a crash state of the save loads as neither the previous nor the new snapshot", json!({"mode": c.mode, "path_name": c.name, "temp_name": tmp_name, "states_failing": torn_loads, "states_total": total, "first": first_torn, "trace": op_text(&ops)}));
+            seen.violation(rep, class, "a crash state of the save loads as neither the previous nor the new snapshot", json!({"mode": c.mode, "path_name": c.name, "temp_name": tmp_name, "states_failing": torn_loads, "states_checked": checked, "states_total": total, "first": first_torn, "trace": op_text(&ops)}));
         }
     }
 }
@@ -1679,6 +1724,9 @@ fn main() {
         let e = &args.extra;
         child_save(&e[1], &e[2], e[3].parse().unwrap_or(1), e[4].parse().unwrap_or(1));
         return;
+    }
+    if args.extra.windows(2).any(|w| w[0] == "--variant" && w[1] == "fixed") {
+        FIXED.store(true, std::sync::atomic::Ordering::Relaxed);
     }
     let mut rep = Report::new(
         "seeded generation of stores / values / damaged files / crash points; a case is non-trivial when it \
